@@ -391,3 +391,46 @@ Example nested_nonvacuous :
   let s := Ne.exec g NeP.sanity_witness in
   Ne.VIEW g (Ne.st s 3) = 2 /\ Ne.VIEW g (Ne.st s 4) = 2 /\ Ne.wAch s 1 = 1 /\ Ne.wAch s 2 = 1 /\ Ne.npc_ s 1 = Ne.NCrit.
 Proof. vm_compute. repeat split; reflexivity. Qed.
+
+(* ================================================================== replicatedkv *)
+From PGV Require C16.Rkv C16.RkvProofs C16.RkvProofs2.
+Module Rk := PGV.C16.Rkv.
+Module RkP := PGV.C16.RkvProofs.
+Module RkP2 := PGV.C16.RkvProofs2.
+
+(* replicated_kv.tla states no invariant; what the property asks of it is that no assertion written in the
+   specification fails.  The model has the spec's 28 labels (13 of the replica, 5 + 7 + 3 + 4 of the Get, Put,
+   Disconnect and ClockUpdate clients) and its four assertions:
+     replicaGetRequest   assert msg.client \in liveClients
+     findMinClient       assert firstPending.op = GET_MSG \/ firstPending.op = PUT_MSG
+     getReply            assert getResp.type = GET_RESPONSE
+     putResponse         assert putResp.type = PUT_RESPONSE
+   For every configuration (number of replicas and clients, buffer bound, spinning or not), every interleaving and
+   every resolution of the `with`s, from the state reached no event makes any of them fail. *)
+Theorem replicatedkv_assertion_free : forall g evs e, Rk.step g (Rk.exec g evs) e <> Rk.AssertFail.
+Proof. intros g evs e. exact (RkP2.rkv_assertion_free_exec g evs e). Qed.
+Print Assumptions replicatedkv_assertion_free.
+
+(* the first assertion rests on this: once a replica has removed c from liveClients (it processed c's DISCONNECT_MSG),
+   its queue holds no Get of c — queues are FIFO and a client sends nothing after its clock is set to -1 *)
+Theorem replicatedkv_no_get_after_disconnect : forall g evs r c,
+  Rk.mem c (Rk.live (Rk.rep (Rk.exec g evs) r)) = false ->
+  RkP2.no_get c (Rk.repNet (Rk.exec g evs) r) = true.
+Proof. intros g evs r c. exact (RkP2.rkv_no_get_after_disconnect g _ r c (RkP.exec_reachable g evs)). Qed.
+Print Assumptions replicatedkv_no_get_after_disconnect.
+
+(* the other three rest on typing of what travels: pending and stable requests are Gets or Puts; a Get client's mailbox
+   holds only GET_RESPONSEs and a Put client's only PUT_RESPONSEs *)
+Theorem replicatedkv_message_typing : forall g evs, RkP.TInv g (Rk.exec g evs).
+Proof. intros g evs. exact (RkP2.rkv_typed g _ (RkP.exec_reachable g evs)). Qed.
+Print Assumptions replicatedkv_message_typing.
+
+(* non-vacuity: with one replica and one client, the Get client's request reaches the replica, passes the liveClients
+   assertion and is queued as pending; then the client disconnects: its clock is -1 and the DISCONNECT_MSG is queued *)
+Example replicatedkv_nonvacuous :
+  let g := Rk.mkCfg 1 1 2 true in
+  let s := Rk.exec g [Rk.EGet 1 None; Rk.EGet 1 (Some 0); Rk.ERep 0 None; Rk.ERep 0 None; Rk.ERep 0 None; Rk.ERep 0 None;
+                      Rk.EDisc 3; Rk.EDisc 3] in
+  Rk.pend (Rk.rep s 0) 1 = [Rk.MGet 0 1 1 1] /\ Rk.rpc_ (Rk.rep s 0) = Rk.RPutReq /\
+  Rk.clocks s 1 = None /\ Rk.repNet s 0 = [Rk.MDisc 1].
+Proof. vm_compute. repeat split; reflexivity. Qed.
